@@ -63,6 +63,21 @@ Theorem c16_external_roundtrip : forall e st,
 Proof. exact external_roundtrip. Qed.
 Print Assumptions c16_external_roundtrip.
 
+(* instruction kinds without operands (const, alloc, literaldata, undefined) in any reader state in
+   which the name is fresh and the block open; the kinds WITH operands are not proved unboundedly *)
+Theorem c16_leaf_instr_roundtrip_partial : forall f vt i v n t st,
+  match i with
+  | IConst _ _ _ _ | IUndef _ _ _ => True
+  | IAlloc _ _ s _ => s <> 0
+  | ILit _ _ d => all_byte d = true
+  | _ => False
+  end ->
+  instr_def i = Some (v, n, t) -> v = rs_next st -> fresh_name n st -> open_block st ->
+  exists j, write_instruction cfg_fixed f i = Ok j /\
+            construct_instruction cfg_fixed vt j st = Ok (after_value i n t st).
+Proof. exact leaf_instr_roundtrip. Qed.
+Print Assumptions c16_leaf_instr_roundtrip_partial.
+
 Example c16_nonvacuous :
   (10 <= List.length corpus)%nat /\ forallb (rt_ok cfg_fixed) [w_value; w_volatile; w_copyblob; w_undefined; w_fwdtype] = true.
 Proof. split; [exact corpus_nonempty | exact fixed_witnesses]. Qed.
